@@ -378,8 +378,11 @@ func watchdog(r *mc.Run) {
 
 func runTotality(r *mc.Run) {
 	go watchdog(r)
+	auditSyms := gen.Dedup(append(gen.AuditChars(nil, 3), gen.AuditStrings(gen.OneLine, 3)...)) // alphabet audit
+	auditSyms = append(auditSyms, gen.AuditIntStrings(0, 1<<62, 3)...)
 	for _, a := range alphabets(r.Quick()) {
 		a := a
+		a.symbols = gen.Dedup(append(append([]string{}, a.symbols...), auditSyms...))
 		L := r.Pick(a.q, a.t)
 		n := len(a.symbols)
 		name := "totality-" + strings.Join(a.entries, "+")
@@ -443,6 +446,16 @@ func runTotality(r *mc.Run) {
 }
 
 var editBytes = []byte{0, ' ', '\n', ':', '-', '(', '[', '<', '$', ',', '0', 'a', 0xff}
+
+func editAlphabet() []byte {
+	out := append([]byte{}, editBytes...)
+	for _, c := range gen.AuditChars(nil, 4) {
+		if len(c) == 1 {
+			out = append(out, c[0])
+		}
+	}
+	return out
+}
 
 // long inputs: each entry point on inputs of up to ~70 KB built by repeating one component of a valid seed (the statement
 // speaks of inputs up to 64 KiB); the calls must return (watchdog) without panicking
@@ -540,7 +553,7 @@ func runEdits(r *mc.Run) {
 					f(s[:p] + s[p+1:]) // deletion
 					f(s[:p])           // truncation
 				}
-				for _, b := range editBytes {
+				for _, b := range editAlphabet() {
 					f(s[:p] + string([]byte{b}) + s[p:]) // insertion
 					if p < len(s) {
 						f(s[:p] + string([]byte{b}) + s[p+1:]) // substitution
